@@ -797,7 +797,7 @@ package mqtt
 // verif:axiom tmatch-def: forall g ref, t string, j int :: tmatch(g, t, j) <==> (0 <= j && j < tdepth(g) && j < nlevels(t) && !(j == 0 && dollar(t) && (fkey(g, 0) == "+" || fkey(g, 0) == "#")) && ((fkey(g, j) == "#" && j == tdepth(g) - 1) || ((fkey(g, j) == "+" || fkey(g, j) == level(t, j)) && fkey(g, j) != "#" && (j == nlevels(t) - 1 ? (tdepth(g) == j + 1 || (tdepth(g) == j + 2 && fkey(g, j + 1) == "#")) : (tdepth(g) > j + 1 && tmatch(g, t, j + 1))))))
 // shape of the index (established by NewTopicsIndex / set / newParticle, kept by trim): parents and children agree,
 // every node but the root carries its three subscription tables, depths and ancestors are what the parent links say
-// verif:def trieInv(x *TopicsIndex) bool = x.root != nil && inTrie(x.root) && tdepth(x.root) == 0 && x.root.parent == nil && (forall c *particle :: inTrie(c) ==> c != nil && tdepth(c) >= 0 && anc(c, tdepth(c)) == c && (tdepth(c) == 0 ==> c == x.root)) && (forall c *particle :: inTrie(c) && c != x.root ==> c.parent != nil && inTrie(c.parent) && has(c.parent.particles.internal, c.key) && c.parent.particles.internal[c.key] == c && tdepth(c) == tdepth(c.parent) + 1 && c.subscriptions != nil && c.shared != nil && c.inlineSubscriptions != nil) && (forall p *particle, k string :: inTrie(p) && has(p.particles.internal, k) ==> p.particles.internal[k] != nil && inTrie(p.particles.internal[k]) && p.particles.internal[k].parent == p && p.particles.internal[k].key == k) && (forall g *particle, j int {anc(g, j)} :: inTrie(g) && 0 < j && j <= tdepth(g) ==> inTrie(anc(g, j)) && tdepth(anc(g, j)) == j && anc(g, j - 1) == anc(g, j).parent && fkey(g, j - 1) == anc(g, j).key)
+// verif:def trieInv(x *TopicsIndex) bool = x.root != nil && inTrie(x.root) && tdepth(x.root) == 0 && x.root.parent == nil && (forall c *particle :: inTrie(c) ==> c != nil && tdepth(c) >= 0 && anc(c, tdepth(c)) == c && (tdepth(c) == 0 ==> c == x.root)) && (forall c *particle :: inTrie(c) && c != x.root ==> c.parent != nil && inTrie(c.parent) && has(c.parent.particles.internal, c.key) && c.parent.particles.internal[c.key] == c && tdepth(c) == tdepth(c.parent) + 1 && c.subscriptions != nil && c.shared != nil && c.inlineSubscriptions != nil && allocated(c.subscriptions.internal) && allocated(c.inlineSubscriptions.internal)) && (forall p *particle, k string :: inTrie(p) && has(p.particles.internal, k) ==> p.particles.internal[k] != nil && inTrie(p.particles.internal[k]) && p.particles.internal[k].parent == p && p.particles.internal[k].key == k) && (forall g *particle, j int {anc(g, j)} :: inTrie(g) && 0 < j && j <= tdepth(g) ==> inTrie(anc(g, j)) && tdepth(anc(g, j)) == j && anc(g, j - 1) == anc(g, j).parent && fkey(g, j - 1) == anc(g, j).key)
 // the topic name of a PUBLISH has no wildcard levels (IsValidFilter, C30)
 // verif:def plainLevels(t string) bool = forall j int :: 0 <= j && j < nlevels(t) ==> level(t, j) != "#" && level(t, j) != "+"
 // g lies strictly below node n (n == nil stands for the root), which has depth d
@@ -825,11 +825,27 @@ package mqtt
 //@ ensures same-subscription: r0.Filter == s.Filter && r0.Identifier == s.Identifier && r0.RetainAsPublished == s.RetainAsPublished && r0.RetainHandling == s.RetainHandling
 //@ ensures C04-identifier-of-the-merged-subscription-recorded: r0.Identifiers != nil && (n.Identifier > 0 ==> has(r0.Identifiers, n.Filter) && r0.Identifiers[n.Filter] == n.Identifier)
 
+// a client subscription whose filter starts with a wildcard is not selected for a topic that begins with '$'
+// verif:def dollarSkip(topic string, f string) bool = len(f) > 0 && topic[0] == '$' && (f[0] == '+' || f[0] == '#')
+// verif:def nsubs(p *particle) map = p.subscriptions.internal
 // Collecting one node. The ghost sets record which nodes were collected (definitional: axiom clauses).
 // verif:func mqtt.TopicsIndex.gatherSubscriptions
 //@ requires particle != nil && particle.subscriptions != nil && subs != nil && len(topic) > 0 && subs.Subscriptions != nil
 //@ modifies entries(subs.Subscriptions), allentries("string", "int"), subs.gsub
 //@ axiom forall g *particle :: subs.gsub[g] <==> (old(subs.gsub[g]) || g == particle)
+//@ requires subs.Subscriptions != particle.subscriptions.internal
+//@ ensures C01-every-subscription-of-the-node-is-selected: forall c string :: has(particle.subscriptions.internal, c) && !dollarSkip(topic, particle.subscriptions.internal[c].Filter) ==> has(subs.Subscriptions, c)
+//@ ensures C01-nothing-but-the-nodes-subscriptions-is-added: forall c string :: has(subs.Subscriptions, c) ==> old(has(subs.Subscriptions, c)) || (has(particle.subscriptions.internal, c) && !dollarSkip(topic, particle.subscriptions.internal[c].Filter))
+//@ ensures earlier-selections-kept: forall c string :: old(has(subs.Subscriptions, c)) ==> has(subs.Subscriptions, c)
+//@ ensures C04-selected-qos-is-at-least-the-nodes: forall c string :: has(particle.subscriptions.internal, c) && !dollarSkip(topic, particle.subscriptions.internal[c].Filter) ==> subs.Subscriptions[c].Qos >= particle.subscriptions.internal[c].Qos
+//@ ensures node-unchanged: forall c string :: (has(particle.subscriptions.internal, c) <==> old(has(particle.subscriptions.internal, c))) && particle.subscriptions.internal[c] == old(particle.subscriptions.internal[c])
+// verif:loop mqtt.TopicsIndex.gatherSubscriptions 1
+//@ invariant copy: rangemap1 != subs.Subscriptions && rangemap1 != particle.subscriptions.internal && (forall c string :: (has(rangemap1, c) <==> has(particle.subscriptions.internal, c)) && rangemap1[c] == particle.subscriptions.internal[c])
+//@ invariant node-unchanged: forall c string :: (has(particle.subscriptions.internal, c) <==> old(has(particle.subscriptions.internal, c))) && particle.subscriptions.internal[c] == old(particle.subscriptions.internal[c])
+//@ invariant selected: forall c string :: visited1[c] && has(rangemap1, c) && !dollarSkip(topic, rangemap1[c].Filter) ==> has(subs.Subscriptions, c) && subs.Subscriptions[c].Qos >= rangemap1[c].Qos
+//@ invariant nothing-else: forall c string :: has(subs.Subscriptions, c) ==> old(has(subs.Subscriptions, c)) || (has(rangemap1, c) && !dollarSkip(topic, rangemap1[c].Filter))
+//@ invariant kept: forall c string :: old(has(subs.Subscriptions, c)) ==> has(subs.Subscriptions, c)
+//@ invariant same-maps: subs.Subscriptions == old(subs.Subscriptions) && subs.Subscriptions != nil && particle.subscriptions != nil && subs.Subscriptions != particle.subscriptions.internal
 // verif:func mqtt.TopicsIndex.gatherSharedSubscriptions
 //@ requires particle != nil && particle.shared != nil && subs != nil && subs.Shared != nil
 //@ modifies entries(subs.Shared), allentries("string", "packets.Subscription"), subs.gshared
@@ -838,12 +854,23 @@ package mqtt
 //@ requires particle != nil && particle.inlineSubscriptions != nil && subs != nil && subs.InlineSubscriptions != nil
 //@ modifies entries(subs.InlineSubscriptions), subs.ginline
 //@ axiom forall g *particle :: subs.ginline[g] <==> (old(subs.ginline[g]) || g == particle)
+//@ requires subs.InlineSubscriptions != particle.inlineSubscriptions.internal
+//@ ensures C01-every-inline-subscription-of-the-node-is-selected: forall k int :: has(particle.inlineSubscriptions.internal, k) ==> has(subs.InlineSubscriptions, k) && subs.InlineSubscriptions[k] == particle.inlineSubscriptions.internal[k]
+//@ ensures C01-nothing-but-the-nodes-inline-subscriptions-is-added: forall k int :: has(subs.InlineSubscriptions, k) ==> old(has(subs.InlineSubscriptions, k)) || has(particle.inlineSubscriptions.internal, k)
+//@ ensures earlier-selections-kept: forall k int :: old(has(subs.InlineSubscriptions, k)) ==> has(subs.InlineSubscriptions, k)
+// verif:loop mqtt.TopicsIndex.gatherInlineSubscriptions 1
+//@ invariant copy: rangemap1 != subs.InlineSubscriptions && rangemap1 != particle.inlineSubscriptions.internal && (forall k int :: (has(rangemap1, k) <==> has(particle.inlineSubscriptions.internal, k)) && rangemap1[k] == particle.inlineSubscriptions.internal[k])
+//@ invariant selected: forall k int :: visited1[k] && has(rangemap1, k) ==> has(subs.InlineSubscriptions, k) && subs.InlineSubscriptions[k] == rangemap1[k]
+//@ invariant nothing-else: forall k int :: has(subs.InlineSubscriptions, k) ==> old(has(subs.InlineSubscriptions, k)) || has(rangemap1, k)
+//@ invariant kept: forall k int :: old(has(subs.InlineSubscriptions, k)) ==> has(subs.InlineSubscriptions, k)
+//@ invariant same-maps: subs.InlineSubscriptions == old(subs.InlineSubscriptions) && subs.InlineSubscriptions != nil && particle.inlineSubscriptions != nil && subs.InlineSubscriptions != particle.inlineSubscriptions.internal
 
 // The walk. One contract for every depth: whatever was collected before stays collected, and a node below n is
 // collected exactly if the filter it stands for matches the topic from level d on.
 // verif:func mqtt.TopicsIndex.scanSubscribers uses=tmatch-def
 //@ requires trieInv(x) && subs != nil && subs.Subscriptions != nil && subs.Shared != nil && subs.InlineSubscriptions != nil
 //@ requires 0 <= d && (n == nil ==> d == 0) && (n != nil ==> inTrie(n) && tdepth(n) == d)
+//@ requires result-maps-are-not-index-tables: forall c *particle :: inTrie(c) && c != x.root ==> c.subscriptions.internal != subs.Subscriptions && c.inlineSubscriptions.internal != subs.InlineSubscriptions
 //@ requires len(topic) > 0 ==> d < nlevels(topic) && nlevels(topic) <= 1099511627776 && plainLevels(topic)
 //@ modifies entries(subs.Subscriptions), entries(subs.Shared), entries(subs.InlineSubscriptions), allentries("string", "packets.Subscription"), allentries("string", "int"), subs.gsub, subs.gshared, subs.ginline
 //@ ensures same-object: r0 == subs
@@ -857,4 +884,13 @@ package mqtt
 //@ invariant client: forall g *particle :: subs.gsub[g] <==> (old(subs.gsub[g]) || (under(x, g, n0, d) && tmatch(g, topic, d) && viaKeys(g, d, key, rangeindex)))
 //@ invariant shared: forall g *particle :: subs.gshared[g] <==> (old(subs.gshared[g]) || (under(x, g, n0, d) && tmatch(g, topic, d) && viaKeys(g, d, key, rangeindex)))
 //@ invariant inline: forall g *particle :: subs.ginline[g] <==> (old(subs.ginline[g]) || (under(x, g, n0, d) && tmatch(g, topic, d) && viaKeys(g, d, key, rangeindex)))
-//@ invariant valid: trieInv(x) && subs != nil && subs.Subscriptions != nil && subs.Shared != nil && subs.InlineSubscriptions != nil
+//@ invariant valid: trieInv(x) && subs != nil && subs.Subscriptions != nil && subs.Shared != nil && subs.InlineSubscriptions != nil && (forall c *particle :: inTrie(c) && c != x.root ==> c.subscriptions.internal != subs.Subscriptions && c.inlineSubscriptions.internal != subs.InlineSubscriptions)
+
+// the entry point: a fresh result, the walk from the root
+// verif:func mqtt.TopicsIndex.Subscribers uses=tmatch-def
+//@ requires trieInv(x) && (len(topic) > 0 ==> nlevels(topic) >= 1 && nlevels(topic) <= 1099511627776 && plainLevels(topic))
+//@ modifies allentries("string", "packets.Subscription"), allentries("string", "int")
+//@ ensures fresh-result: r0 != nil && fresh(r0)
+//@ ensures C01-client-subscriptions-of-exactly-the-matching-filters: forall g *particle :: r0.gsub[g] <==> (len(topic) > 0 && under(x, g, nil, 0) && tmatch(g, topic, 0))
+//@ ensures C01-shared-subscriptions-of-exactly-the-matching-filters: forall g *particle :: r0.gshared[g] <==> (len(topic) > 0 && under(x, g, nil, 0) && tmatch(g, topic, 0))
+//@ ensures C01-inline-subscriptions-of-exactly-the-matching-filters: forall g *particle :: r0.ginline[g] <==> (len(topic) > 0 && under(x, g, nil, 0) && tmatch(g, topic, 0))
